@@ -11,7 +11,8 @@
      Yield                  a result crosses the outermost generator frame (PY_YIELD)
      Return(d)              frame d returns (PY_RETURN)
      Outcome(esc, n)        what the consumer of the API saw: escaped class | "Done", number of results
-     CliOut(out, diag, exit) stdout class, number of "sharepoint2text: " lines on stderr, exit status
+     CliOut(out, diag, exit) stdout class (empty | result | partial | polluted = something other than cli.py wrote
+                            to stdout), number of lines on stderr, exit status
      Helper(n)              n helper functions of the library (the image-dimension sniffers) were called directly on
                             hostile bytes and came back (returned or raised an Exception, which the extractor above
                             them wraps): nothing is required of a helper except that it comes back
